@@ -50,7 +50,12 @@ type levelLaw struct {
 func sweepCharLevel(c *Ctx, rec spg.CharRecipe, L int, prefix, cont []uint32, budget int, r *Rng, S map[string]bool) levelLaw {
 	ll := levelLaw{law: Law{}, rejected: new(big.Rat)}
 	seenRej := 0
-	ll.leaves, ll.complete = sweep(sweepCfg{Prefix: prefix, Depth: L, Cont: cont, MaxLeaves: budget}, func(t *Tape) OpResult { return genOp(t, rec) }, func(l *Leaf) bool {
+	ll.leaves, ll.complete = sweep(sweepCfg{Prefix: prefix, Depth: L, Cont: cont, MaxLeaves: budget}, func(t *Tape) OpResult {
+		// beyond the enumerated depth and the known-good continuation: seeded random choices
+		t.spec.Default = "random"
+		t.rng = Sub(0x5eed, "continuation")
+		return genOp(t, rec)
+	}, func(l *Leaf) bool {
 		c.T(l.Res.brief())
 		if l.Res.Kind != "ok" {
 			if ll.badLeaf == "" {
@@ -194,6 +199,9 @@ func init() {
 			}
 			s := &C02Spec{Seed: seed, Budget: budget, Levels: 1 + r.Intn(2), Orders: genOrders(r, seed)}
 			o := charOpt{small: true, budget: int64(budget), maxLen: 6, maxReq: 4, noEmptied: r.Chance(0.8)}
+			if r.Chance(0.45) {
+				o.budget = int64(pick(r, []int{16, 40, 80})) // tiny: deep sweeps through one or two rejected candidates are affordable
+			}
 			if tier == "thorough" && r.Chance(0.15) {
 				// big alphabets with short length
 				o.maxLen = 2
@@ -283,39 +291,32 @@ func runC02(c *Ctx, si interface{}) {
 			c.Probe("config_with_rejected_first_candidates", 1)
 		}
 		c.Sample(map[string]interface{}{"recipe": s.Cfg.String(), "char_order": s.Orders.Chars, "leaves_level0": ll.leaves, "allowed_strings": len(p.S), "rejected_mass_level0": ll.rejected.RatString()})
-		// deeper levels after forced rejected candidates
-		prefixes := ll.rejPaths
-		for lvl := 1; lvl <= s.Levels && len(prefixes) > 0; lvl++ {
-			var next [][]uint32
-			for pi, pre := range prefixes {
-				if pi >= 2 {
-					break
-				}
-				l2 := sweepCharLevel(c, rec, L, pre, cont, s.Budget*4, r, p.S)
-				c.Eval(int64(l2.leaves))
-				c.Count("leaves", int64(l2.leaves))
-				c.Count(fmt.Sprintf("sweeps_level%d", lvl), 1)
-				c.Probe(fmt.Sprintf("swept_after_%d_rejected_candidates", lvl), 1)
-				if len(p.S) >= 2 && l2.complete {
-					c.Distinct(s.Cfg.String(), s.Orders.Chars, lvl, fmt.Sprint(pre))
-				}
-				if !checkLevel(c, fmt.Sprintf("level %d (after rejected candidate path %v)", lvl, pre), l2, p.S, s.Cfg) {
-					return
-				}
-				// same law as level 0: retrying must not favour any valid string
-				if l2.complete && ll.complete {
-					for k, q := range l2.law {
-						if q0, ok := ll.law[k]; !ok || q0.Cmp(q) != 0 {
-							c.Violate("retry-bias", "", "%s: after rejected candidate path %v string %q has probability %s, on the first attempt %v", s.Cfg, pre, k, q.RatString(), ll.law[k])
-							return
-						}
-					}
-				}
-				for _, rp := range l2.rejPaths {
-					next = append(next, append(append([]uint32{}, pre...), rp...))
-				}
+		// Deeper unconditional sweeps: every path of the first 2L (3L) draws. No assumption is made
+		// about how many draws a rejected candidate consumes (an implementation may abandon a
+		// hopeless candidate early): whatever the retry mechanism, the probability that the call
+		// has returned s within D draws must be the same for every allowed s, and zero for any
+		// other string. A retry that favours some valid string breaks this at some depth.
+		rejLeaves := ll.leaves - len(ll.law)
+		for mult := 2; mult <= 1+s.Levels+1 && mult <= 3 && rejLeaves > 0; mult++ {
+			est := float64(rejLeaves) * float64(ll.leaves)
+			if mult == 3 {
+				est *= float64(rejLeaves)
 			}
-			prefixes = next
+			if est > float64(s.Budget)*8 {
+				c.Count(fmt.Sprintf("depth_%dL_sweep_too_large", mult), 1)
+				break
+			}
+			ld := sweepCharLevel(c, rec, mult*L, nil, cont, s.Budget*40, r, p.S)
+			c.Eval(int64(ld.leaves))
+			c.Count("leaves", int64(ld.leaves))
+			c.Count(fmt.Sprintf("sweeps_depth_%dL", mult), 1)
+			c.Probe(fmt.Sprintf("swept_to_depth_%dL_through_rejected_candidates", mult), 1)
+			if len(p.S) >= 2 && ld.complete {
+				c.Distinct(s.Cfg.String(), s.Orders.Chars, mult)
+			}
+			if !checkLevel(c, fmt.Sprintf("within %d draws (%d x Length, through rejected candidates)", mult*L, mult), ld, p.S, s.Cfg) {
+				return
+			}
 		}
 	})
 }
